@@ -379,6 +379,12 @@ impl<const HEAP: bool> Drop for Tr<HEAP> {
                         l.states[id as usize] = Life::Dropped;
                         l.live -= 1;
                         l.dropped += 1;
+                        drop(l);
+                        // a destructor that panics (armed for exactly one object, one shot)
+                        if DROP_BOMB.try_with(|b| b.get() == id).unwrap_or(false) && !std::thread::panicking() {
+                            let _ = DROP_BOMB.try_with(|b| b.set(0));
+                            panic!("{}", DROP_BOMB_MSG);
+                        }
                     }
                     s => {
                         drop(l);
@@ -602,6 +608,11 @@ pub fn install_panic_hook() {
                 *p = Some(format!("{msg} @ {loc}"));
             }
         });
+        // a panic that will abort the process (non-unwinding, or a second panic while unwinding)
+        // must leave a trace for the driver's crash report
+        if msg.contains("unsafe precondition") || msg.contains("cannot unwind") || msg.contains("unreachable_unchecked") {
+            eprintln!("FATAL panic: {msg} @ {loc}");
+        }
         if !QUIET.try_with(|q| q.get()).unwrap_or(false) {
             default(info);
         }
@@ -638,4 +649,16 @@ pub fn digest(words: impl IntoIterator<Item = u64>) -> u64 {
 pub static NOFORGET: std::sync::atomic::AtomicBool = std::sync::atomic::AtomicBool::new(false);
 pub fn noforget() -> bool {
     NOFORGET.load(std::sync::atomic::Ordering::Relaxed)
+}
+
+thread_local! {
+    static DROP_BOMB: Cell<u64> = const { Cell::new(0) };
+}
+pub const DROP_BOMB_MSG: &str = "verif-drop-bomb";
+/// Make the destructor of the object with this id panic once (0 disarms).
+pub fn set_drop_bomb(id: u64) {
+    DROP_BOMB.with(|b| b.set(id));
+}
+pub fn drop_bomb_armed() -> bool {
+    DROP_BOMB.with(|b| b.get() != 0)
 }
